@@ -91,8 +91,9 @@ CONSTANTS = {
          r"fn write_metadata\(&mut self\) -> Result<ParquetMetaData> \{\s*self\.finished = true;.*?(\d+)", "int"),
         # ---- guards of the modelled readers (shape items: `_lost = false` is what the theorem uses)
         ("SHAPE_READ_META_LEN_EOF", _IR,
-         r"pub fn read_meta_len\(&mut self\).{0,200}?match self\.reader\.read_exact\(&mut meta_len\) \{\s*Ok\(\(\)\) => \{\}\s*Err\(e\) => \{\s*return if e\.kind\(\) == std::io::ErrorKind::UnexpectedEof \{"
-         r"(?:\s*//[^\n]*)*\s*Ok\(None\)\s*\} else \{\s*Err\(ArrowError::from\(e\)\)\s*\};.*?(\d+)", "int"),
+         r"pub fn read_meta_len\(&mut self\).{0,200}?let mut filled = (0);\s*while filled < meta_len\.len\(\) \{\s*match self\.reader\.read\(&mut meta_len\[filled\.\.\]\) \{"
+         r"(?:\s*//[^\n]*)*\s*Ok\(0\) if filled == 0 => return Ok\(None\),(?:\s*//[^\n]*)*\s*Ok\(0\) => \{\s*return Err\(ArrowError::from\(std::io::Error::from\(\s*std::io::ErrorKind::UnexpectedEof,?\s*\)\)\);\s*\}"
+         r"\s*Ok\(n\) => filled \+= n,\s*Err\(e\) if e\.kind\(\) == std::io::ErrorKind::Interrupted => \{\}\s*Err\(e\) => return Err\(ArrowError::from\(e\)\),", "int"),
         ("SHAPE_READ_META_LEN_MARKER", _IR,
          r"if meta_len == CONTINUATION_MARKER \{\s*self\.reader\.read_exact\(&mut meta_len\)\?;\s*\}\s*i(32)::from_le_bytes\(meta_len\)\s*\};\s*if meta_len == 0 \{\s*return Ok\(None\);\s*\}"
          r"\s*let meta_len = usize::try_from\(meta_len\)\s*\.map_err\(", "int"),
@@ -112,8 +113,9 @@ CONSTANTS = {
          r"pub fn finish\(&mut self\) -> Result<\(\), ArrowError> \{\s*match self\.state \{\s*DecoderState::Finished\s*\| DecoderState::Header \{\s*read: (0),\s*continuation: false,\s*\.\.\s*\} => Ok\(\(\)\),"
          r"\s*_ => Err\(", "int"),
         ("SHAPE_STREAM_DECODER_LOOP", "arrow-ipc/src/reader/stream.rs",
-         r"pub fn decode\(&mut self, buffer: &mut Buffer\).{0,80}?while !buffer\.is_empty\(\) \{.{0,1200}?if !\*continuation && buf == &CONTINUATION_MARKER \{.{0,200}?let size = u(32)::from_le_bytes\(\*buf\);"
-         r"\s*if size == 0 \{\s*self\.state = DecoderState::Finished;.{0,12000}?DecoderState::Finished => \{\s*return Err\(", "int"),
+         r"pub fn decode\(&mut self, buffer: &mut Buffer\).{0,300}?while !buffer\.is_empty\(\) \|\| self\.has_pending_empty_body\(\) \{.{0,1200}?if !\*continuation && buf == &CONTINUATION_MARKER \{.{0,200}?let size = u(32)::from_le_bytes\(\*buf\);"
+         r"\s*if size == 0 \{\s*self\.state = DecoderState::Finished;.{0,12000}?DecoderState::Finished => \{\s*return Err\(.{0,3000}?fn has_pending_empty_body\(&self\) -> bool \{\s*match &self\.state \{\s*DecoderState::Body \{ message \} => \{"
+         r"\s*self\.buf\.is_empty\(\) && message\.as_ref\(\)\.bodyLength\(\) == 0\s*\}\s*_ => false,", "int"),
         ("SHAPE_JSON_FLUSH", "arrow-json/src/reader/mod.rs",
          r"pub fn flush\(&mut self\) -> Result<Option<RecordBatch>, ArrowError> \{\s*let tape = self\.tape_decoder\.finish\(\)\?;\s*if tape\.num_rows\(\) == (0) \{\s*return Ok\(None\);", "int"),
         ("SHAPE_JSON_TAPE_FINISH", "arrow-json/src/reader/tape.rs",
